@@ -39,3 +39,11 @@ except ImportError:  # replayer side: no z3
 
     def inline_ok(*targets):
         pass
+
+    class SliceV:
+        def __init__(self, start, stop, step=None):
+            self.start, self.stop, self.step = start, stop, step
+
+    class _Never:
+        pass
+    Arr = Obj = SymList = SegList = ConcatList = SymMap = GenV = Composed = Quot = RealV = Opaque = _Never
